@@ -113,6 +113,18 @@ Preempt(i, k, sk, t) ==
        ELSE IF victims = {} THEN Conflict(i, "preempt", args)
        ELSE Good(i, "preempt", args, Without(victims), holder, rtype, gen + 1)
 
+\* REGISTER AND MOVE: the holder registers the OTHER nexus (named by an iSCSI TransportID and a relative target port)
+\* with key sk and hands the reservation over to it; with UNREG = 1 it also gives up its own registration.  From a
+\* nexus that does not hold the reservation it is a conflict; key 0 or a move to oneself is 26h/00h
+RegisterMove(i, k, sk, unreg, j) ==
+    /\ Room
+    /\ LET args == <<k, sk, unreg, j>> IN
+       IF ~Registered(i, k) THEN Conflict(i, "regmove", args)
+       ELSE IF holder # i THEN Conflict(i, "regmove", args)
+       ELSE IF sk = 0 \/ j = i THEN Illegal(i, "regmove", args, 38, 0)
+       ELSE Good(i, "regmove", args, [n \in Ini |-> IF n = j THEN sk ELSE IF n = i /\ unreg = 1 THEN 0 ELSE reg[n]],
+                 j, rtype, gen + 1)
+
 \* ---- PERSISTENT RESERVE IN (never conflicts) ---------------------------------------------------------------------
 Regs == SelectSeq(<<1, 2>>, LAMBDA j : reg[j] # 0)
 ReadKeys(i) ==
@@ -161,6 +173,7 @@ Next == \/ \E i \in Ini, k \in K0, sk \in K0 : Register(i, k, sk) \/ RegisterIgn
         \/ \E i \in Ini, k \in K0, t \in Types : Reserve(i, k, t) \/ Release(i, k, t)
         \/ \E i \in Ini, k \in K0 : Clear(i, k)
         \/ \E i \in Ini, k \in K0, sk \in K0, t \in Types : Preempt(i, k, sk, t)
+        \/ \E i \in Ini, k \in K0, sk \in K0, u \in {0, 1}, j \in Ini : RegisterMove(i, k, sk, u, j)
         \/ \E i \in Ini : ReadKeys(i) \/ ReadReservation(i) \/ FullStatus(i) \/ Capabilities(i) \/ Read(i)
         \/ \E i \in Ini, v \in {1, 2} : Write(i, v)
         \/ Export
@@ -169,7 +182,7 @@ Spec == Init /\ [][Next]_vars
 \* enumerate every behaviour of three and four steps
 NextSmall == \/ \E i \in Ini : \E sk \in {0, i} : Register(i, reg[i], sk)
              \/ \E i \in Ini, t \in {1, 6} : Reserve(i, reg[i], t) \/ Release(i, reg[i], t) \/ Preempt(i, reg[i], 3 - i, t)
-             \/ \E i \in Ini : Clear(i, reg[i]) \/ Read(i) \/ Write(i, i)
+             \/ \E i \in Ini : Clear(i, reg[i]) \/ Read(i) \/ Write(i, i) \/ RegisterMove(i, reg[i], 3 - i, 1, 3 - i)
              \/ ReadKeys(1) \/ ReadReservation(2) \/ FullStatus(1)
              \/ Export
 SpecSmall == Init /\ [][NextSmall]_vars
@@ -187,6 +200,9 @@ ExclusiveRead == \A n \in 1..Len(hist) :
     LET e == hist[n] IN
     (e.act = "read" /\ e.out = "ok" /\ e.st.holder \notin {0, e.i}) => (e.st.rtype \in {1, 5} \/ (e.st.rtype = 6 /\ e.st.reg[e.i] # 0))
 GenMonotone == [][gen' >= gen]_vars
-\* the reservation changes hands only by RESERVE on a free unit, by PREEMPT, or is dropped
-HolderChange == [][(holder' # holder /\ holder' # 0) => hist'[Len(hist')].act \in {"reserve", "preempt"} /\ hist'[Len(hist')].i = holder']_vars
+\* the reservation changes hands only by RESERVE on a free unit, by PREEMPT (to the nexus that asked), by REGISTER AND
+\* MOVE (from the holder to the nexus it named), or is dropped
+HolderChange == [][(holder' # holder /\ holder' # 0) =>
+                       \/ hist'[Len(hist')].act \in {"reserve", "preempt"} /\ hist'[Len(hist')].i = holder'
+                       \/ hist'[Len(hist')].act = "regmove" /\ hist'[Len(hist')].i = holder /\ hist'[Len(hist')].args[4] = holder']_vars
 =============================================================================
